@@ -9,6 +9,8 @@ import Blue.Proofs.SstDivide
 import Blue.Proofs.SstLoad
 import Blue.Proofs.SstCut
 import Blue.Proofs.SstMeta
+import Blue.Proofs.SstRoundtrip
+import Blue.Proofs.SstBytes
 import Blue.Proofs.ConstsTieC10
 /-! # Property C10 — an SST or block returns exactly what was put in, under every cursor movement
 
@@ -25,12 +27,16 @@ them with the real crates byte-for-byte (block bytes; a table's data blocks, ind
 block; the packed `SstMetadata`) and observation-for-observation (cursor programs, `load`).
 
 What is a theorem here and what is held by correspondence only is said at each statement; the
-piece named `_partial` is weaker than the property's sentence and says what is missing.  The
+piece named `_partial` is weaker than the property's sentence and says what is missing — and
+`sst_file_roundtrip` (below it) supplies the missing step: the *file image* the builder writes,
+opened from its bytes by the model of `Sst::new` / `Sst::load_block` that C09 uses
+(`Blue/Model/SstOpen.lean`), is a table whose cursor programs, `load` and `metadata` are the
+reference over the accepted entries.  The
 empty entry sequence is inside the theorems about bytes (`sealed_bytes_decode`) and about the
 table (`sst_cursor_refines` with no blocks); the model describes the *repaired* cursor of an empty
 block (D-7). -/
 namespace Blue.Props.C10
-open Blue.Wire Blue.EntryCodec Blue.Block Blue.BlockCursor Blue.Cursor Blue.Sst
+open Blue.Wire Blue.EntryCodec Blue.Block Blue.BlockCursor Blue.Cursor Blue.Sst Blue.SstOpen
 
 /-! ## constants -/
 /-- limits, message field numbers / wire types and the footer tags are the ones in the source -/
@@ -213,6 +219,112 @@ theorem sst_builder_refines_partial (o : SstOpts) (atts : List KV) (c : CBuilder
           = loadSpec (SB.putAll o SB.init atts).2.accepted k ts) :=
   sst_builder_refines o atts c sf hcur hf hwfE hwfD hfitE hfitD
 
+/-! ## the file round trip: builder → bytes → `Sst::new` → cursor -/
+/-- NEW: **`sst_file_roundtrip`** — the step `sst_builder_refines_partial` leaves out.  Feed any
+    attempts to `SstBuilder` (refused ones change nothing) and `seal`; `s1` is the builder after the
+    `flush_block` of `seal` (the builder itself when nothing was put: the empty table is covered),
+    `f` the sealed file.  Then `f.bytes` — data block frames, index block frame, filter block frame,
+    final block ending in the eight-byte trailer — opened the way `Sst::new` opens a file (trailer
+    → `FinalBlock::unpack` → `BlockMetadata::sanity_check` and the two ordering checks → index block
+    through its `(start, limit, crc32c)` → `BlockMetadata::unpack` of every index entry → filter
+    block), with every data block fetched through `Sst::load_block` (the `SstEntry` frame at
+    `[start, limit)` of the file, its payload's CRC against the recorded one, `Block::new`), is a
+    table on which **no call fails** and
+
+    * every finite program of `seek_to_first / seek_to_last / next / prev / seek(k)` shows after
+      every call what the reference cursor over the accepted entries shows,
+    * `load(k, ts)` is `loadSpec` (newest version of `k` not newer than `ts`, tombstone, absent:
+      `load_spec_is_newest`),
+    * `metadata()` = (the setsum handed to `seal`, first and last accepted key, the final block's
+      smallest / biggest timestamp — which `metadata_exact` shows are those of the accepted
+      entries —, the length of the file),
+    * the whole forward walk (`seek_to_first`, `next` to the end — what C09 renders of a pristine
+      file) is the accepted entries, the backward walk their reverse, neither ends in an error.
+
+    The proof composes `sst_builder_refines` with the open of the image: the final block and the
+    `BlockMetadata` values are the packings of their schema values (so the C15 round trip reads
+    them back), the builder's `bytes_written` bookkeeping makes the index entries name exactly
+    the extents the frames were written to (`frameAt_metasOf`), and the lazily loading cursor
+    takes the same steps as the table model's cursor.
+
+    Parameters and hypotheses that remain, explicitly:
+    * `crc` — the reader's checksum function: any function that agrees with the writer's
+      (`Blue.Sst.crc32c`) on the payloads written, the writer's value fitting the `fixed32` field
+      (`hcrc`; `sst_file_roundtrip_crc32c` instantiates `crc := crc32c` and asks only that the
+      keys, values and filter handed to the builder are byte strings).  No other property of the checksum is used.
+    * `filter` — the bloom filter block's bytes: of the length `Filter::new` gives for the number
+      of accepted entries (`hfilter`); `Sst::load` is modelled under "no false negatives".
+    * `setsum` — the digest handed to `seal`: 32 bytes (`hsetsum`).
+    * the file is shorter than 2^64 bytes (`hsize`); timestamps are `u64` (`hts`); `Wf` / `Fits` as in
+      `sst_builder_refines_partial` (fields fit the wire types and the `u32` restart offsets, which
+      the size limits guarantee). -/
+theorem sst_file_roundtrip (crc : List Nat → Nat) (o : SstOpts) (atts : List KV) (filter setsum : List Nat)
+    (f : SstFile) (s1 : SB)
+    (hs1 : sealedState o (SB.putAll o SB.init atts).2 = .ok s1)
+    (hseal : (SB.putAll o SB.init atts).2.seal o filter setsum = .ok f)
+    (hts : ∀ e ∈ atts, e.ts ≤ U64MAX)
+    (hwfE : ∀ e ∈ (SB.putAll o SB.init atts).2.accepted, e.Wf) (hwfD : ∀ d ∈ s1.divE, d.Wf)
+    (hfitE : ∀ es ∈ s1.cutE, Fits (build o.blk es)) (hfitD : Fits (build o.blk s1.divE))
+    (hsetsum : setsum.length = 32)
+    (hfilter : filter.length = filterLen (SB.putAll o SB.init atts).2.count o.bloomBits)
+    (hsize : f.bytes.length < U64)
+    (hcrc : ∀ b, b ∈ f.index :: f.filter :: f.blocks → crc b = crc32c b ∧ crc32c b < 4294967296) :
+    ∃ t, openSst crc f.bytes = .ok t
+      ∧ (∀ ops : List KOp, t.run crc t.toFirst ops
+          = (Ref.run ⟨(SB.putAll o SB.init atts).2.accepted, 0⟩ (ops.map KOp.toOp)).map .ok)
+      ∧ (∀ (k : List Nat) (ts : Nat), t.load crc k ts = .ok (loadSpec (SB.putAll o SB.init atts).2.accepted k ts))
+      ∧ t.metadata crc = .ok
+          ⟨setsum,
+           (match (SB.putAll o SB.init atts).2.accepted.head? with | some e => e.key | none => []),
+           (match (SB.putAll o SB.init atts).2.accepted.getLast? with | some e => e.key | none => MAX_KEY),
+           f.fin.smallest, f.fin.biggest, f.bytes.length⟩
+      ∧ t.forward crc = ((SB.putAll o SB.init atts).2.accepted, none)
+      ∧ t.backward crc = ((SB.putAll o SB.init atts).2.accepted.reverse, none) :=
+  Blue.SstOpen.sst_file_roundtrip crc o atts filter setsum f s1 hs1 hseal hts hwfE hwfD hfitE hfitD hsetsum hfilter
+    hsize hcrc
+
+/-- NEW: the same with the model's own CRC32C on both sides (the instance the driver runs): the
+    checksum is no longer a parameter, and nothing is asked of the image's bytes — the attempts' keys
+    and values and the filter parameter are byte strings (`KVBytes`, `Bytes`: values below 256), hence
+    so is every payload written (`sealed_payload_bytes`) and its CRC32C is a 32-bit value
+    (`crc32c_lt`) -/
+theorem sst_file_roundtrip_crc32c (o : SstOpts) (atts : List KV) (filter setsum : List Nat)
+    (f : SstFile) (s1 : SB)
+    (hs1 : sealedState o (SB.putAll o SB.init atts).2 = .ok s1)
+    (hseal : (SB.putAll o SB.init atts).2.seal o filter setsum = .ok f)
+    (hts : ∀ e ∈ atts, e.ts ≤ U64MAX)
+    (hwfE : ∀ e ∈ (SB.putAll o SB.init atts).2.accepted, e.Wf) (hwfD : ∀ d ∈ s1.divE, d.Wf)
+    (hfitE : ∀ es ∈ s1.cutE, Fits (build o.blk es)) (hfitD : Fits (build o.blk s1.divE))
+    (hsetsum : setsum.length = 32)
+    (hfilter : filter.length = filterLen (SB.putAll o SB.init atts).2.count o.bloomBits)
+    (hsize : f.bytes.length < U64)
+    (hbE : ∀ e ∈ atts, KVBytes e) (hbF : Bytes filter) :
+    ∃ t, openSst crc32c f.bytes = .ok t
+      ∧ (∀ ops : List KOp, t.run crc32c t.toFirst ops
+          = (Ref.run ⟨(SB.putAll o SB.init atts).2.accepted, 0⟩ (ops.map KOp.toOp)).map .ok)
+      ∧ (∀ (k : List Nat) (ts : Nat), t.load crc32c k ts = .ok (loadSpec (SB.putAll o SB.init atts).2.accepted k ts))
+      ∧ t.metadata crc32c = .ok
+          ⟨setsum,
+           (match (SB.putAll o SB.init atts).2.accepted.head? with | some e => e.key | none => []),
+           (match (SB.putAll o SB.init atts).2.accepted.getLast? with | some e => e.key | none => MAX_KEY),
+           f.fin.smallest, f.fin.biggest, f.bytes.length⟩
+      ∧ t.forward crc32c = ((SB.putAll o SB.init atts).2.accepted, none)
+      ∧ t.backward crc32c = ((SB.putAll o SB.init atts).2.accepted.reverse, none) :=
+  Blue.SstOpen.sst_file_roundtrip_bytes o atts filter setsum f s1 hs1 hseal hts hwfE hwfD hfitE hfitD hsetsum hfilter
+    hsize hbE hbF
+
+/-- NEW: the pieces of the open, each a statement about bytes: `FinalBlock::unpack` and
+    `BlockMetadata::unpack` read back what `seal` / `flush_block` packed, and the `i`-th index
+    entry's `(start, limit)` is the extent of the `i`-th data block's frame in the file -/
+theorem final_block_and_index_entries_read_back :
+    (∀ (fin : Final), FinalFits fin →
+      decFinal (encFinal fin) = some ⟨fin.index, fin.filter, fin.setsum, fin.smallest, fin.biggest⟩)
+    ∧ (∀ (m : BlockMeta), MetaFits m → decMeta (encBlockMeta m) = some m)
+    ∧ (∀ (blocks : List (List Nat)) (pre post : List Nat) (i : Nat) (m : BlockMeta) (b : List Nat),
+        (metasOf pre.length blocks)[i]? = some m → blocks[i]? = some b → b.length < U64 →
+        frameAt (pre ++ blocks.flatMap (frame SE_PLAIN) ++ post) m = .ok (0, b) ∧ m.crc = crc32c b) :=
+  ⟨decFinal_enc, decMeta_enc, frameAt_metasOf⟩
+
 /-- NEW: the `assert!(lhs < rhs)` inside `divide_keys` (a panic) never fires from `put` / `del`
     (a block is flushed only for an entry that passed the sort-order check) nor from `seal` -/
 theorem divide_keys_assert_never_fires (o : SstOpts) (s : SB) (e : KV) (filter setsum : List Nat) :
@@ -301,6 +413,36 @@ example :
       | .error _ => ([], []))
     = ([1, 1, 1, 1, 1, 1], [([], 7), ([97], 9), ([97], 8), ([97], 0), ([97, 0], 5), ([98], 5)]) := by
   decide +kernel
+/-- the file round trip on `sample` (one entry per block): the builder seals, `s1` exists, the
+    hypotheses on sizes, filter, setsum and bytes hold, and the image — 411 bytes — opens; a program
+    with reversals and seeks shows the expected entries -/
+def zeros32 : List Nat := List.replicate 32 0
+def sampleFile : Option SstFile :=
+  match (SB.putAll sampleOpts SB.init sample).2.seal sampleOpts zeros32 zeros32 with
+  | .ok f => some f
+  | .error _ => none
+example : (match sealedState sampleOpts (SB.putAll sampleOpts SB.init sample).2 with
+    | .ok s1 => (s1.cutE.length, s1.divE.length) | .error _ => (0, 0)) = (6, 6) := by decide +kernel
+example : zeros32.length = 32 ∧ zeros32.length = filterLen (SB.putAll sampleOpts SB.init sample).2.count sampleOpts.bloomBits := by
+  decide +kernel
+example : (match sampleFile with
+    | some f => decide (f.bytes.length = 411) && (f.index :: f.filter :: f.blocks).all (fun b => b.all (fun x => decide (x < 256)))
+    | none => false) = true := by decide +kernel
+example : (∀ e ∈ sample, KVBytes e) ∧ Bytes zeros32 := by
+  refine ⟨?_, by unfold Bytes zeros32; decide⟩
+  intro e he
+  simp only [sample, List.mem_cons, List.mem_nil_iff, or_false] at he
+  rcases he with rfl | rfl | rfl | rfl | rfl | rfl <;>
+    (refine ⟨by unfold Bytes; decide, ?_⟩; intro v hv; cases hv <;> (unfold Bytes; decide))
+example : (match sampleFile with
+    | some f =>
+      (match openSst crc32c f.bytes with
+       | .ok t => (t.run crc32c t.toFirst [.first, .next, .next, .seek [97, 0], .prev, .last, .prev, .seek [99], .prev]).map
+           (fun r => match r with | Except.ok (some e) => some (e.key, e.ts) | _ => none)
+       | .error _ => [])
+    | none => [])
+    = [none, some ([], 7), some ([97], 9), some ([97, 0], 5), some ([97], 0), none, some ([98], 5), none, some ([98], 5)] := by
+  decide +kernel
 example : ∀ e ∈ sample, e.ts ≤ U64MAX := by decide
 /-- a lookup between two versions: newest version of `[97]` at or below 8 is the tombstone at 8;
     at or below 7 likewise; below 0 there is none — and key `[97, 1]` is absent -/
@@ -333,6 +475,9 @@ end Blue.Props.C10
 #print axioms Blue.Props.C10.block_load_spec
 #print axioms Blue.Props.C10.sst_load_spec
 #print axioms Blue.Props.C10.sst_builder_refines_partial
+#print axioms Blue.Props.C10.sst_file_roundtrip
+#print axioms Blue.Props.C10.sst_file_roundtrip_crc32c
+#print axioms Blue.Props.C10.final_block_and_index_entries_read_back
 #print axioms Blue.Props.C10.divide_keys_assert_never_fires
 #print axioms Blue.Props.C10.metadata_keys
 #print axioms Blue.Props.C10.metadata_exact
